@@ -1,0 +1,106 @@
+//go:build verif
+
+package keeper
+
+// Contracts for the deductive checker in /verif (comment-only; compiled only with -tags verif).
+// The expected keepers (bank, account, erc20, vesting) have assumed contracts in x/liquidvesting/types.
+
+/*@
+alias CVA github.com/haqq-network/haqq/x/vesting/types.ClawbackVestingAccount
+alias LvDenom github.com/haqq-network/haqq/x/liquidvesting/types.Denom
+sort LvStore = (Array Str LvDenom)
+sort LvHas = (Array Str Bool)
+world lv_denoms LvStore
+world lv_has LvHas
+world lv_counter uint64
+
+// ---- leaf store accessors: assumed contracts over the abstract store view
+func (Keeper).GetDenom
+    trusted
+    ensures result.1 == lv_has[baseDenom] && (result.1 ==> result.0 == lv_denoms[baseDenom])
+func (Keeper).SetDenom
+    trusted
+    modifies lv_denoms, lv_has
+    ensures lv_denoms == upd(old(lv_denoms), denom.BaseDenom, denom) && lv_has == upd(old(lv_has), denom.BaseDenom, true)
+func (Keeper).DeleteDenom
+    trusted
+    modifies lv_has
+    ensures lv_has == upd(old(lv_has), baseDenom, false)
+func (Keeper).CreateDenom
+    trusted
+    modifies lv_denoms, lv_has, lv_counter
+    ensures result.1 == nil && result.0.StartTime == time_of(startTime, 0) && result.0.LockupPeriods == periods
+            && result.0.OriginalDenom == originalDenom && lv_counter == old(lv_counter) + 1
+            && lv_denoms == upd(old(lv_denoms), result.0.BaseDenom, result.0) && lv_has == upd(old(lv_has), result.0.BaseDenom, true)
+func (Keeper).IsLiquidVestingEnabled
+    trusted
+    pure
+func (Keeper).GetParams
+    trusted
+    pure
+    ensures result.MinimumLiquidationAmount >= 0
+
+func (Keeper).UpdateDenomPeriods
+    modifies lv_denoms, lv_has
+    ensures found: result == nil ==> old(lv_has[baseDenom]) && lv_denoms[old(lv_denoms[baseDenom]).BaseDenom].LockupPeriods == newPeriods
+    ensures missing: result != nil ==> lv_denoms == old(lv_denoms) && lv_has == old(lv_has)
+
+// C11: liquidation escrows exactly the requested amount, mints the same amount of the liquid token, stores a
+// schedule whose total is that amount and whose release events keep the absolute times they had on the account,
+// and leaves on the account, period by period, exactly what was not moved.
+func (Keeper).Liquidate
+    let from = addr_of_bech32(msg.LiquidateFrom)
+    let now = time_unix(ctx_blocktime(ctx_unwrap(goCtx)))
+    let A = msg.Amount.Amount
+    let d = msg.Amount.Denom
+    let oldLock = oldheap(va.LockupPeriods)
+    let accStart = time_unix(oldheap(va.StartTime))
+    let past = PastCount(accStart, oldLock, now)
+    requires msg: msg != nil && msg.Amount.Amount > 0
+    call SendCoinsFromAccountToModule requires escrow: senderAddr == from && recipientModule == "liquidvesting" && amt == cone(d, A)
+    call MintCoins requires minted: moduleName == "liquidvesting" && (exists ld string :: amt == cone(ld, A))
+    let D0 = ret(SubtractAmountFromPeriods, 1, 1)
+    let DEC = ret(SubtractAmountFromPeriods, 1, 0)
+    let UP = ret(ExtractUpcomingPeriods, 1, 0)
+    call CurrentPeriodShift use CountLenFrame(accStart, oldLock, va.LockupPeriods, len(oldLock), now)
+    call CreateDenom use SumFrame(D0, periods, len(periods))
+    call CreateDenom use CountLenFrame(accStart, oldLock, va.LockupPeriods, len(oldLock), now)
+    call CreateDenom use CountLenFrame(accStart, oldLock, va.LockupPeriods, past, now)
+    call CreateDenom use LvAll(accStart, oldLock, len(oldLock), now)
+    call CreateDenom requires total: Sum(periods, len(periods))[d] == A && startTime == now && originalDenom == d
+    call CreateDenom requires shape: len(periods) == len(oldLock) - past && len(va.LockupPeriods) == len(oldLock) && 0 <= past && past <= len(oldLock)
+    call CreateDenom requires split: forall j int :: past <= j && j < len(oldLock) ==> cadd(va.LockupPeriods[j].Amount, periods[j - past].Amount) == oldLock[j].Amount
+                && cnonneg(va.LockupPeriods[j].Amount) && cnonneg(periods[j - past].Amount)
+    call CreateDenom requires kept: forall k int :: 0 <= k && k < past ==> va.LockupPeriods[k] == oldLock[k]
+    call CreateDenom requires no_earlier: T(now, periods, 1) == T(accStart, oldLock, past + 1)
+            && (forall k int :: 1 <= k && k < len(periods) ==> periods[k].Length == oldLock[past + k].Length)
+    call SetAccount requires account: isdyn(acc, *CVA) && dyn(acc, *CVA) == va
+            && va.OriginalVesting == csub(oldheap(va.OriginalVesting), cone(d, A)) && va.StartTime == oldheap(va.StartTime)
+    allow frame
+
+// C11: redeeming burns exactly the redeemed amount of the liquid token, releases the same amount of the original
+// coin, shrinks the stored schedule by exactly that amount, and hands the released part of the schedule to the
+// recipient account anchored at the liquid token's own start time.
+func (Keeper).Redeem
+    let A = msg.Amount.Amount
+    let ld = msg.Amount.Denom
+    let from = addr_of_bech32(msg.RedeemFrom)
+    let to = addr_of_bech32(msg.RedeemTo)
+    let den = old(lv_denoms[msg.Amount.Denom])
+    requires msg: msg != nil && msg.Amount.Amount > 0
+    requires stored: forall b string :: lv_has[b] ==> lv_denoms[b].BaseDenom == b
+            && (forall k int :: 0 <= k && k < len(lv_denoms[b].LockupPeriods) ==> lv_denoms[b].LockupPeriods[k].Length >= 0 && cnonneg(lv_denoms[b].LockupPeriods[k].Amount))
+            && time_unix(lv_denoms[b].EndTime) >= T(time_unix(lv_denoms[b].StartTime), lv_denoms[b].LockupPeriods, len(lv_denoms[b].LockupPeriods))
+    call SendCoinsFromAccountToModule requires escrow: senderAddr == from && recipientModule == "liquidvesting" && amt == cone(ld, A)
+    call BurnCoins requires burned: moduleName == "liquidvesting" && amt == cone(ld, A)
+    call SendCoinsFromModuleToAccount requires released: senderModule == "liquidvesting" && recipientAddr == to && amt == cone(den.OriginalDenom, A)
+    call UpdateDenomPeriods use SumSplit(den.LockupPeriods, final(decreasedPeriods), final(diffPeriods), len(den.LockupPeriods))
+    call ExtractUpcomingPeriods use TLenFrame(time_unix(den.StartTime), den.LockupPeriods, final(diffPeriods), len(den.LockupPeriods))
+    call UpdateDenomPeriods requires shrunk: baseDenom == ld && len(newPeriods) == len(den.LockupPeriods)
+            && Sum(newPeriods, len(newPeriods))[den.OriginalDenom] == Sum(den.LockupPeriods, len(den.LockupPeriods))[den.OriginalDenom] - A
+            && (forall k int :: 0 <= k && k < len(newPeriods) ==> newPeriods[k].Length == den.LockupPeriods[k].Length)
+    call ApplyVestingSchedule requires schedule: funded == to && startTime == den.StartTime && coins == cone(den.OriginalDenom, A) && merge
+            && (exists c int :: 0 <= c && c <= len(den.LockupPeriods) && len(lockupPeriods) == len(den.LockupPeriods) - c
+                && (forall k int :: 0 <= k && k < len(lockupPeriods) ==> lockupPeriods[k].Length == den.LockupPeriods[c + k].Length))
+    allow frame
+@*/
